@@ -634,3 +634,42 @@ Definition wild_model : model :=
     {| td_type := 2; td_rels :=
          [ {| rd_rel := 1; rd_rw := Diff This (Computed 2); rd_restr := [ {| r_type := 1; r_kind := RWild; r_cond := 0 |} ] |};
            {| rd_rel := 2; rd_rw := This; rd_restr := [ {| r_type := 1; r_kind := RObj; r_cond := 0 |} ] |} ] |} ].
+
+(* ---- failing streams: an error is never turned into `denied` ---- *)
+From OFGA Require Import Check.V2Streams.
+
+Lemma existsb_false_forall : forall (A : Type) (f : A -> bool) l,
+    existsb f l = false -> forall x, In x l -> f x = false.
+Proof.
+  intros A f l H x Hin. destruct (f x) eqn:E; [|reflexivity].
+  assert (existsb f l = true) by (apply existsb_exists; exists x; split; assumption). congruence.
+Qed.
+
+Theorem stream_error_never_denied : forall (ss : list stream) (right : stream),
+    execute (union_out ss) right = Denied ->
+    (forall s, In s ss -> snd (consume s) = false) /\ snd (consume right) = false /\
+    (forall s v, In s ss -> In v (fst (consume s)) -> In v (fst (consume right)) -> False).
+Proof.
+  intros ss right H. unfold execute in H. destruct (consume right) as [rv re] eqn:R. simpl in *.
+  destruct (existsb (fun v => mem v rv) (flat_map (fun s => fst (consume s)) ss)) eqn:M; [discriminate|].
+  destruct (existsb (fun s => snd (consume s)) ss || re) eqn:E; [discriminate|].
+  apply orb_false_iff in E. destruct E as [E1 E2]. split; [|split].
+  - intros s Hs. exact (existsb_false_forall _ _ _ E1 s Hs).
+  - exact E2.
+  - intros s v Hs Hv Hr.
+    assert (Hm : mem v rv = false).
+    { apply (existsb_false_forall _ _ _ M v). apply in_flat_map. exists s. split; assumption. }
+    unfold mem in Hm. pose proof (existsb_false_forall _ _ _ Hm v Hr) as Hq. rewrite N.eqb_refl in Hq. discriminate.
+Qed.
+
+Theorem stream_allowed_is_witnessed : forall (ss : list stream) (right : stream),
+    execute (union_out ss) right = Allowed ->
+    exists s v, In s ss /\ In v (fst (consume s)) /\ In v (fst (consume right)).
+Proof.
+  intros ss right H. unfold execute in H. destruct (consume right) as [rv re] eqn:R. simpl in *.
+  destruct (existsb (fun v => mem v rv) (flat_map (fun s => fst (consume s)) ss)) eqn:M.
+  - apply existsb_exists in M. destruct M as [v [Hv Hm]]. apply in_flat_map in Hv. destruct Hv as [s [Hs Hv]].
+    unfold mem in Hm. apply existsb_exists in Hm. destruct Hm as [w [Hw Hq]]. apply N.eqb_eq in Hq. subst w.
+    exists s, v. repeat split; assumption.
+  - destruct (existsb (fun s => snd (consume s)) ss || re); discriminate.
+Qed.
